@@ -45,7 +45,7 @@ def c13_obs(prop):
                         "bounds": dict({"L": 6, "list_len": "0..2", "map_entries": "0..2", "option_sets": "LoadYAML/LoadWithoutEval, LoadMetadata, Load"}, **b)}}
         if prop == "C13":
             ob["label_prefixes"] = ["C13."]
-            ob["must_reach"] = ["end", "accepted"] + ([] if g in ("tags",) else ["rejected"])
+            ob["must_reach"] = ["end", "accepted"] + ([] if g in ("tags", "params") else ["rejected"])
         else:
             ob["label_prefixes"] = ["C19."]
             ob["ignore_panics"] = True
